@@ -1219,7 +1219,7 @@ ACCOUNT_KINDS = {
     'seeded': {'seed': SEED_A},
     'seeded-short': {'seed': SEED_B, 'address_generator': {'name': 'single-address'}},
     'key-only': {'private_key': XPRV_B},
-    'with-channel-keys': {'seed': "zoo", 'certificates': {'bXxYz': PEM}},
+    'with-channel-keys': {'seed': "zoo zoo zoo zoo zoo zoo zoo zoo zoo zoo zoo wrong", 'certificates': {'bXxYz': PEM}},
 }
 
 
